@@ -122,12 +122,7 @@ class Run(object):
             return rc.Select(self.fdl(y[1]), self.fdl(y[2]), self.fdl(y[3]), sec(y[4])), (None if y[4] is None else [now + y[4], has])
         if tag == "recv": return rc.Recv(self.fd(y[1]), timeout=sec(y[2])), (None if y[2] is None else [now + y[2], True])
         if tag == "send":
-            H = self
-            class Send(rc.Send):                    # records when the real Send (re-)registers its select
-                def execute(op, task, scheduler):
-                    op.last_reg = H.now()
-                    return rc.Send.execute(op, task, scheduler)
-            return Send(self.fd(y[1]), b"d" * y[2], timeout=sec(y[3]), block_size=y[4]), ("send", y[3])
+            return rc.Send(self.fd(y[1]), b"d" * y[2], timeout=sec(y[3]), block_size=y[4]), ("send", y[3])
         if tag == "exit": return rc.Exit(), None
         if tag == "again":
             tid2 = self.ntids; self.ntids += 1
@@ -146,8 +141,8 @@ class Run(object):
             if self.running is not None: self.overlap += 1
             self.running = tid
             self.cur_idx = i
-            if isinstance(wake, tuple):                             # Send: last registration + timeout
-                wake = None if wake[1] is None else [wake[2].last_reg + wake[1], True]
+            if isinstance(wake, tuple):                             # Send: its last registerSelect + timeout
+                wake = None if wake[1] is None else [self.last_reg[tid] + wake[1], True]
             self.trace.append(["s", tid, i, self.now(), recv, wake])
             try:
                 if uncaught is not None: raise uncaught
@@ -155,7 +150,7 @@ class Run(object):
                 y = prog[i]
                 if y[0] == "raise": raise E(y[1])
                 val, wake = self.build(y, tid)
-                if wake is not None and wake[0] == "send": wake = ("send", wake[1], val)
+                if wake is not None and wake[0] == "send": wake = ("send", wake[1])
             finally:
                 self.running = None
             try:
@@ -166,6 +161,11 @@ class Run(object):
                 if y[0] == "again" and not y[2]: uncaught = e
             i += 1
 
+    def tid(self, t):
+        if id(t) in self.tid_of: return self.tid_of[id(t)]
+        g = getattr(getattr(t, "parent", None), "subtask_func", None)
+        return self.tid_of.get(id(g), -1)
+
     # ---- run
     def go(self):
         rc = self.rc; case = self.case
@@ -175,6 +175,12 @@ class Run(object):
         sched._thread = threading.current_thread()
         hub._select_func = self.vselect
         H = self
+        self.last_reg = {}
+        real_register = hub.registerSelect
+        def register(task, *a, **kw):                               # notes when the real hub registers a wait (Send re-registers itself)
+            H.last_reg[H.tid(task)] = H.now()
+            return real_register(task, *a, **kw)
+        hub.registerSelect = register
         class T(rc.BaseTask):
             def run(t, tid, prog): return H.body(tid, prog)
         tops = []
@@ -211,10 +217,7 @@ class Run(object):
         except Exception as e:
             run_exc = type(e).__name__
         quit_ = sched._hasQuit if st["quit"] is None else st["quit"]
-        def tid(t):
-            if id(t) in self.tid_of: return self.tid_of[id(t)]
-            g = getattr(getattr(t, "parent", None), "subtask_func", None)
-            return self.tid_of.get(id(g), -1)
+        tid = self.tid
         text = out.getvalue()
         excs = sorted(set(m.split(".")[-1] for m in re.findall(r"^([A-Za-z_][\w.]*)(?::|$)", text, re.M)
                           if m not in ("Task", "Traceback")))
@@ -228,7 +231,7 @@ class Run(object):
             try: os.close(getattr(p, a))
             except OSError: pass
             setattr(p, a, -1)
-        sched.cycle = None; hub._select_func = None
+        sched.cycle = None; hub._select_func = None; hub.registerSelect = None
         return obs
 
 
@@ -333,6 +336,37 @@ def hand_cases():
     yield mk([[NUM0] * 6], [0, 0], [[0, True, False, None]], budget=40, label="budget stops a timer that never ends")
 
 
+def epoll_case(rng):
+    """a sequence of select() calls on n pipes: plain differential test EpollSelect.select vs select.select (not part of the model)"""
+    n = rng.randint(1, 5)
+    calls = []
+    for _ in range(rng.randint(1, 6)):
+        calls.append({"write": [i for i in range(n) if rng.random() < 0.4], "drain": [i for i in range(n) if rng.random() < 0.2],
+                      "rl": [i for i in range(n) if rng.random() < 0.7], "wl": [i for i in range(n) if rng.random() < 0.4]})
+    return {"kind": "epoll", "n": n, "calls": calls, "label": "epoll"}
+
+
+def run_epoll(case):
+    from pox.lib.epoll_select import EpollSelect
+    pipes = [os.pipe() for _ in range(case["n"])]
+    es = EpollSelect()
+    out = []
+    try:
+        for c in case["calls"]:
+            for i in c["drain"]:
+                if _rsel.select([pipes[i][0]], [], [], 0)[0]: os.read(pipes[i][0], 4096)
+            for i in c["write"]: os.write(pipes[i][1], b"x")
+            rl = [pipes[i][0] for i in c["rl"]]; wl = [pipes[i][1] for i in c["wl"]]
+            a = _rsel.select(rl, wl, [], 0)
+            b = es.select(rl, wl, [], 0)
+            idx = lambda fds, k: sorted(next(i for i, p in enumerate(pipes) if p[k] == f) for f in fds)
+            out.append({"select": [idx(a[0], 0), idx(a[1], 1), idx(a[2], 0)], "epoll": [idx(b[0], 0), idx(b[1], 1), idx(b[2], 0)]})
+    finally:
+        es.close()
+        for r, w in pipes: os.close(r); os.close(w)
+    return {"epoll": out}
+
+
 class C06(Check):
     id = "C06"
     title = "Cooperative scheduler runs every task step exactly once, in isolation"
@@ -385,6 +419,8 @@ class C06(Check):
     # -- cases
     def corpus(self):
         cases = list(hand_cases())
+        cases.append({"kind": "epoll", "n": 2, "label": "epoll", "calls": [{"write": [0], "drain": [], "rl": [0, 1], "wl": [1]},
+                     {"write": [], "drain": [0], "rl": [0, 1], "wl": []}, {"write": [1], "drain": [], "rl": [1], "wl": [0, 1]}]})
         cases += list(scope(CORE, 2, 2))                                         # 111^2
         cases += list(scope(ALPHA, 3, 1, label="scope3x1"))                      # 26^3
         for alpha in ([NUM0, SLEEP4], [NUM0, ["again", -1, True]], [SEL_R0, RAISE]):
@@ -395,6 +431,8 @@ class C06(Check):
         n = 2500 if tier == "quick" else 30000
         for _ in range(n):
             yield rand_case(rng)
+        for _ in range(40 if tier == "quick" else 400):
+            yield epoll_case(rng)
         if tier == "thorough":
             drop = [SLEEPN, ["sleepabs", T0 + 4], ["again", -2, False], ["again", -5, False], ["again", -1, False]]
             for c in scope([a for a in ALPHA if a not in drop], 2, 2, label="scope2x2-wide"):      # 421^2
@@ -410,6 +448,8 @@ class C06(Check):
 
     # -- implementation (observables are kept as one JSON string per case: hundreds of thousands of cases are held in memory)
     def impl(self, case):
+        if case.get("kind") == "epoll":
+            return {"j": json.dumps(run_epoll(case), separators=(",", ":"))}
         return {"j": json.dumps(Run(self.rc, case).go(), separators=(",", ":"))}
 
     def _o(self, obs):
@@ -420,6 +460,7 @@ class C06(Check):
     KEYS = ("trace", "quit", "crashed", "cycles", "now", "ready", "incoming", "hub")
 
     def model_request(self, case):
+        if case.get("kind") == "epoll": return None                 # plain differential test, no model counterpart
         r = {k: v for k, v in case.items() if k not in ("label", "_iso")}
         r.update(REPAIRED)
         return r
@@ -434,6 +475,11 @@ class C06(Check):
     # -- the property itself, on the implementation's observables (independent of the model)
     def oracle(self, case, obs):
         o = self._o(obs)
+        if case.get("kind") == "epoll":
+            for i, c in enumerate(o["epoll"]):
+                if c["select"] != c["epoll"]:
+                    return "epoll:mismatch | call %d: select.select %s, EpollSelect %s" % (i, c["select"], c["epoll"])
+            return None
         return oracle(self, case, o)
 
     def finding_key(self, case, obs, failure):
@@ -441,11 +487,16 @@ class C06(Check):
 
     def nontrivial(self, case, obs):
         o = self._o(obs)
+        if case.get("kind") == "epoll": return any(c["select"][0] or c["select"][1] for c in o["epoll"])
         subs = set(s[0] for s in o["subs"])
         return any(e[0] == "f" or (e[0] == "s" and (e[5] is not None or e[1] in subs)) for e in o["trace"])
 
     def shrink_candidates(self, case):
         c0 = json.loads(json.dumps(case))
+        if case.get("kind") == "epoll":
+            for i in range(len(c0["calls"])):
+                c = json.loads(json.dumps(c0)); del c["calls"][i]; yield c
+            return
         if len(c0["tasks"]) > 1:
             for i in range(len(c0["tasks"])):
                 c = json.loads(json.dumps(c0)); del c["tasks"][i]; yield c
